@@ -83,7 +83,9 @@ def run(v, O):
     b = v.b * (fb / fu)          # bound in the unit of the node
     bt = f'{O.lit(v.b)}' + (f' {v.bunit}' if v.bunit else (f' {v.unit}' if v.unit else ''))
     expr = {'lt': '{?} < B', 'le': '{?} <= B', 'gt': '{?} > B', 'ge': '{?} >= B', 'eq': '{?} == B', 'ne': '{?} != B',
-            'range': 'L < {?} && {?} < B', 'or': '{?} < L || {?} > B', 'rev': 'B > {?}'}[v.op]
+            'range': 'L < {?} && {?} < B', 'or': '{?} < L || {?} > B', 'rev': 'B > {?}',
+            'orand': '{?} < B || {?} > L && {?} < L',         # && binds tighter than ||: the second part can never hold
+            'andor': '{?} > L && {?} < L || {?} < B'}[v.op]
     lo = v.lo if hasattr(v, 'lo') else None
     if getattr(v, 'refbound', False):
         expr = expr.replace('B', '{?lim}')
@@ -117,6 +119,8 @@ def run(v, O):
         strict = O.and_(st('lt', lo, x), st('lt', x, b)); tolerant = O.and_(to('lt', lo, x), to('lt', x, b))
     elif v.op == 'or':
         strict = O.or_(st('lt', x, lo), st('gt', x, b)); tolerant = O.or_(to('lt', x, lo), to('gt', x, b))
+    elif v.op in ('orand', 'andor'):
+        strict, tolerant = st('lt', x, b), O.or_(to('lt', x, b), O.and_(to('gt', x, lo), to('lt', x, lo)))
     elif v.op == 'rev':
         strict, tolerant = st('gt', b, x), to('gt', b, x)
     else:
@@ -175,14 +179,14 @@ def scenarios(tier, seed):
                                   consts={'unit': unit, 'ounits': ous, 'listform': listform, 'nmods': nmods, 'dtype': 'float', 'same': True}, preamble=PRE,
                                   what=f'float node in {unit} whose options repeat one number under the units {ous}', samples=2))
     for unit, bunit in (('m', None), ('m', 'cm'), ('J', 'erg'), (None, None)):
-        for op in ('lt', 'le', 'gt', 'ge', 'eq', 'ne', 'range', 'or', 'rev'):
+        for op in ('lt', 'le', 'gt', 'ge', 'eq', 'ne', 'range', 'or', 'rev', 'orand', 'andor'):
             for nmods in (0, 1):
                 for dtype in ('float', 'int'):
                     if dtype == 'int' and unit is not None:
                         continue
                     kind = 'real' if dtype == 'float' else 'int'
                     inp = {'v0': kind, 'b': kind}
-                    if op in ('range', 'or'):
+                    if op in ('range', 'or', 'orand', 'andor'):
                         inp['lo'] = kind
                     inp.update({f'm{i}': kind for i in range(nmods)})
                     S.append(Scenario(f'condition/{dtype}/{unit}/{bunit}/{op}/{nmods}', COND_SRC, inp, consts={'unit': unit, 'bunit': bunit, 'op': op, 'nmods': nmods, 'dtype': dtype},
@@ -222,6 +226,13 @@ def scenarios(tier, seed):
                 ('options on a bool refused', "a bool = true\n  = true", False), ('format on an int refused', "a int = 3\n  !format '3'", False),
                 ('two constraints both hold', "a float = 2 m\n  = 2 m\n  = 3 m\n  !condition ('{?} < 2.5 m')", True), ('two constraints, condition fails', "a float = 3 m\n  = 2 m\n  = 3 m\n  !condition ('{?} < 2.5 m')", False),
                 ('two constraints, option fails', "a float = 1 m\n  = 2 m\n  = 3 m\n  !condition ('{?} < 2.5 m')", False), ('declared node never set', "a float m\n  = 2 m", False),
+                ('option added to an imported copy does not reach the original', 'size float = 2 cm\n  = 2 cm\n  = 3 cm\nbox {?size}\n  = 5 cm\nsize = 5 cm', False),
+                ('option added to an imported copy holds for the copy', 'size float = 2 cm\n  = 2 cm\n  = 3 cm\nbox {?size}\n  = 5 cm\nbox.size = 5 cm', True),
+                ('imported copy keeps the options of the original', 'size float = 2 cm\n  = 2 cm\n  = 3 cm\nbox {?size}\nbox.size = 5 cm', False),
+                ('imported copy keeps the condition of the original', 'size float = 2 cm\n  = 2 cm\n  = 3 cm\n  !condition ("{?} < 2.5 cm")\nbox {?size}\nbox.size = 3 cm', False),
+                ('two imports of one node do not share added options', 'size float = 2 cm\n  = 2 cm\na {?size}\n  = 7 cm\nb {?size}\nb.size = 7 cm', False),
+                ('int node: matching an option in another prefix keeps the value and the condition in the node unit', 'n int = 5 m\n  = 200 cm\n  = 5 m\n  !condition ("{?} < 100")\nn = 2 m', True),
+                ('int node: condition in the node unit fails', 'n int = 5 m\n  = 200 cm\n  = 5 m\n  !condition ("{?} > 100")\nn = 2 m', False),
                 ('bool condition holds', "a float = 1\n  !condition ('{?} > 0 && {?} < 2')", True), ('constraint checked on nested node', "g\n  a int = 5\n    = 4\n    = 6", False)]
     S.append(Scenario('strings-and-combinations', STROPT_SRC, {}, consts={'cases': strcases, 'messages': ["doesn't match with any option", 'does not match the format', 'does not fullfil a condition',
                                                                                                        'does not support options', 'Format can be set only', 'Node value must be defined', 'invalid dimension', 'index out of range', 'Array value set to scalar', 'Could not convert', 'inhomogeneous']},
